@@ -12,7 +12,7 @@ LEAN_DIR = os.path.join(VERIF, "lean")
 HARNESS_DIR = os.path.join(VERIF, "harness")
 CACHE = os.path.join(VERIF, ".cache")
 DRIVER = os.path.join(LEAN_DIR, ".lake", "build", "bin", "gse_driver")
-HARNESS = os.path.join(CACHE, "harness-target", "debug", "gse_ops")
+HARNESS = os.environ.get("VERIF_HARNESS_BIN") or os.path.join(CACHE, "harness-target", "debug", "gse_ops")
 
 
 def sh(cmd, cwd=None, timeout=None, env=None):
